@@ -74,7 +74,7 @@ def r17_a(ctx):
     for fd, node, qual, module in _all_funcs_with_nested(repo):
         glob = _module_level_names(repo, module)
         loc = _locals_of(node)
-        declared_global = {x for n in ast.walk(node) if isinstance(n, (ast.Global, ast.Nonlocal)) for x in n.names}
+        declared_global = {x for n in ast.walk(node) if isinstance(n, ast.Global) for x in n.names}
         writes = []
         for n in ast.walk(node):
             # nested function defs have their own locals
